@@ -66,8 +66,14 @@ def _plan(draw, max_len, narrow=True):
     pool = POOLS[kind]
     if draw(st.booleans()):
         pool = pool[:4]
+    ngroups = 2
+    if h == "mode" and draw(st.booleans()):
+        # tie patterns such as [1, 2, 2, 1] need few distinct values in few, larger groups
+        nn = [v for v in pool if v == v and v is not None and v != ""]
+        pool = nn[:2] + [v for v in pool if v not in nn][:1]
+        ngroups = draw(st.integers(0, 1))
     vals = [draw(st.sampled_from(pool)) for _ in range(n)]
-    groups = [draw(st.integers(0, 2)) for _ in range(n)]
+    groups = [draw(st.integers(0, ngroups)) for _ in range(n)]
     args = {}
     if h not in ("all", "any") and draw(st.integers(0, 2)):
         args["drop_na"] = draw(st.booleans())
